@@ -7,7 +7,9 @@ import (
 )
 
 // byte64Fn(k) names the extraction of byte k (0 = least significant) of a 64-bit value:
-//   byte64_k(x) = (x div 256^k) mod 256         (definitional axiom)
+//
+//	byte64_k(x) = (x div 256^k) mod 256         (definitional axiom)
+//
 // and comes with the arithmetic lemma that a value below 2^64 is the sum of its eight bytes.
 // The lemma is pure linear-integer arithmetic with div/mod by constants; z3 does not find it by
 // itself, cvc5 proves it in about two seconds. It is therefore stated as an axiom here and proved
